@@ -59,6 +59,12 @@ class C(Check):
             if r.status == 'crashed':
                 at = min(len(r.stmts), len(st) - 1)
                 ck = crash_key(r)
+                fr = ck.get('frames', [])[:3]
+                rep = str(r.crash.get('report', '')) if isinstance(r.crash, dict) else ''
+                import re as _re
+                if ck.get('kind') == 'asan:stack-overflow' and len(_re.findall(r'set_(union|intersection|complement)', rep)) >= 5:
+                    viol(dict(clause='crash', kind='asan:stack-overflow', family='set-algebra-recursion'), dict(program=prog[:2] + ([prog[at]] if at >= 2 else []), crash=r.crash, config='asan'))
+                    continue
                 viol(dict(clause='crash', kind=ck.get('kind'), frames=ck.get('frames', [])[:2]), dict(program=prog[:2] + ([prog[at]] if at >= 2 else []), crash=r.crash, config='asan'))
                 continue
             if r.status == 'timeout':
